@@ -220,9 +220,9 @@ Section P.
   Qed.
 
   Lemma matvec_rot c s (n v : V3) :
-    matvec N (mmk (fun j k => rot_R N c (outer N n j k) (eye N j k) s (nrotx N n j k))) v
-    = rodrigues c s n v.
+    matvec N (rot_matrix_of N c s n) v = rodrigues c s n v.
   Proof.
+    unfold rot_matrix_of.
     destruct n as [[n0 n1] n2], v as [[v0 v1] v2].
     unfold matvec, vmk. rewrite !sum3_R.
     unfold mmk, vmk, mget, mrow, vget, vx, vy, vz. cbn [fst snd].
@@ -392,4 +392,48 @@ Section P.
     - generalize (acos_bound (Rmin (Rmax (vz (p2d_xyz N sd sr psi t)) (-1)) 1)). lra.
     - apply Rfmod_bound. apply twoPI_pos.
   Qed.
+  (* ---------------------------------------------------------------- composition: what the analysis sees *)
+  Lemma tdm_psi_angsep ra dec sra sdec f : tdm_psi N ra dec sra sdec f = angsep N ra dec sra sdec f.
+  Proof. unfold tdm_psi. apply K_call_tdm_psi. Qed.
+  Lemma signalpdf_psi_angsep sra sdec ra dec : signalpdf_psi N sra sdec ra dec = angsep N sra sdec ra dec None.
+  Proof. unfold signalpdf_psi. apply K_call_signalpdf_psi. Qed.
+
+  (* an MC event rotated onto the source enters the psi data field and the spatial
+     signal PDF with the separation it had from its true direction *)
+  Lemma pipeline_rot ra1 d1 ra2 d2 ra3 d3 :
+    tdm_psi N (fst (rot_sv N ra1 d1 ra2 d2 ra3 d3)) (snd (rot_sv N ra1 d1 ra2 d2 ra3 d3)) ra2 d2 None
+      = angsep N ra3 d3 ra1 d1 None
+    /\ signalpdf_psi N ra2 d2 (fst (rot_sv N ra1 d1 ra2 d2 ra3 d3)) (snd (rot_sv N ra1 d1 ra2 d2 ra3 d3))
+      = angsep N ra3 d3 ra1 d1 None.
+  Proof.
+    rewrite tdm_psi_angsep, signalpdf_psi_angsep, (angsep_sym e ra2 d2). split; apply rot_sv_preserves.
+  Qed.
+
+  (* a direction drawn at opening angle psi is seen at psi, unless a larger floor is configured *)
+  Lemma pipeline_psi sd sr psi t f :
+    0 <= psi <= PI ->
+    tdm_psi N (snd (psi2decra N sd sr psi t)) (fst (psi2decra N sd sr psi t)) sr sd None = psi
+    /\ tdm_psi N (snd (psi2decra N sd sr psi t)) (fst (psi2decra N sd sr psi t)) sr sd (Some f) = Rmax psi f.
+  Proof.
+    intros H. rewrite !tdm_psi_angsep, angsep_floor, (psi2decra_sep sd sr psi t H). split; reflexivity.
+  Qed.
+
+  (* the guards of the involution and of the psi theorem are needed *)
+  Lemma azi2ra_guard_needed mjd : azi2ra N (azi2ra N (2 * PI) mjd) mjd <> 2 * PI.
+  Proof.
+    rewrite azi2ra_twice.
+    replace (Rfmod (2 * PI) (2 * PI)) with 0.
+    - generalize PI_RGT_0. lra.
+    - symmetry. apply (Rfmod_unique (2 * PI) (2 * PI) 0 1); [apply twoPI_pos | generalize twoPI_pos; lra | ring].
+  Qed.
+
+  Lemma psi2decra_guard_needed sd sr psi t :
+    psi < 0 ->
+    angsep N (snd (psi2decra N sd sr psi t)) (fst (psi2decra N sd sr psi t)) sr sd None <> psi.
+  Proof. intros H E. generalize (angsep_range e (snd (psi2decra N sd sr psi t)) (fst (psi2decra N sd sr psi t)) sr sd). lra. Qed.
+
+  Lemma psi2decra_guard_needed_hi sd sr psi t :
+    PI < psi ->
+    angsep N (snd (psi2decra N sd sr psi t)) (fst (psi2decra N sd sr psi t)) sr sd None <> psi.
+  Proof. intros H E. generalize (angsep_range e (snd (psi2decra N sd sr psi t)) (fst (psi2decra N sd sr psi t)) sr sd). lra. Qed.
 End P.
